@@ -364,10 +364,13 @@ fn tok_g(t: &ErasedSegment) -> String {
     )
 }
 
-struct Ctx {
+pub struct Ctx {
     cfgs: HashMap<String, (FluffConfig, Vec<(u64, Matchable)>)>,
 }
 impl Ctx {
+    pub fn new() -> Ctx {
+        Ctx { cfgs: HashMap::new() }
+    }
     fn get(&mut self, dialect: &str) -> &(FluffConfig, Vec<(u64, Matchable)>) {
         if !self.cfgs.contains_key(dialect) {
             let cfg = FluffConfig::from_source(&format!("[sqruff]\ndialect = {}\n", dialect), None);
@@ -383,13 +386,13 @@ impl Ctx {
     }
 }
 
-struct Item {
-    dialect: String,
-    cls: &'static str,
-    sql: String,
+pub struct Item {
+    pub dialect: String,
+    pub cls: &'static str,
+    pub sql: String,
 }
 
-fn run_one(cx: &mut Ctx, it: &Item, out: &mut Buf) {
+pub fn run_one(cx: &mut Ctx, it: &Item, out: &mut Buf) {
     let (cfg, regex_nodes) = cx.get(&it.dialect);
     let input = json!({"dialect": it.dialect, "sql": it.sql});
     let tables = Tables::default();
